@@ -59,6 +59,35 @@ func elemKind(elems []value, def types.BasicKind) types.BasicKind {
 // symSelect returns elems[idx] as a balanced ite tree over the index bits.
 func symSelect(elems []value, idx symv, def types.BasicKind) value {
 	boundsFork(idx, len(elems))
+	return symSelectChecked(elems, idx, def)
+}
+
+func symSelectChecked(elems []value, idx symv, def types.BasicKind) value {
+	// elements that are structs (or arrays) of scalars: select field by field (e.g. utf8.acceptRanges[x>>4])
+	if len(elems) > 0 {
+		switch e0 := elems[0].(type) {
+		case structure:
+			out := make(structure, len(e0))
+			for f := range e0 {
+				col := make([]value, len(elems))
+				for i, e := range elems {
+					col[i] = e.(structure)[f]
+				}
+				out[f] = symSelectChecked(col, idx, def)
+			}
+			return out
+		case array:
+			out := make(array, len(e0))
+			for f := range e0 {
+				col := make([]value, len(elems))
+				for i, e := range elems {
+					col[i] = e.(array)[f]
+				}
+				out[f] = symSelectChecked(col, idx, def)
+			}
+			return out
+		}
+	}
 	k := elemKind(elems, def)
 	w := kindWidth(idx.k)
 	var build func(lo, hi int) *Term // elements [lo,hi)
